@@ -470,10 +470,10 @@ async fn part_b(ctx: &mut Ctx) {
             settle(&c, 180).await;
             checkpoint(ctx, &c, "healed").await;
         }
-        ctx.count_n("net.messages_passed", verif_fault::PASSED.load(std::sync::atomic::Ordering::Relaxed));
-        ctx.count_n("net.messages_lost", verif_fault::LOST.load(std::sync::atomic::Ordering::Relaxed));
         c.shutdown().await;
     }
+    ctx.count_n("net.messages_passed", verif_fault::PASSED.load(std::sync::atomic::Ordering::Relaxed));
+    ctx.count_n("net.messages_lost", verif_fault::LOST.load(std::sync::atomic::Ordering::Relaxed));
     let _ = std::fs::remove_dir_all(&scratch);
 }
 
